@@ -1,7 +1,13 @@
 /-
-  C08 model, static part: every cycle of a code block's control-flow graph passes through an
-  `IncrementLoopIteration`. `loopGuarded` removes the counter instructions and tests the remaining graph for
-  acyclicity by a depth-first search (fuelled).  Import-free apart from the C03 block model.
+  C08 model.
+  Static part: every cycle of a code block's control-flow graph passes through an `IncrementLoopIteration`.
+  The certificate is a ranking of the instructions that strictly decreases along every edge that does not
+  leave a counter instruction (`rankOk`); Theorems.lean shows that it bounds the number of instructions an
+  activation can execute between two executions of the counter.
+  Dynamic part: the per-frame loop counter (`IncrementLoopIteration::operation`), the shapes loops are lowered
+  to, how a RuntimeLimitError travels through an activation chain (`Context::handle_error`, uncatchable branch)
+  and the recursion-depth accounting of `check_runtime_limits`.
+  Import-free apart from the C03 block model.
 -/
 import BoaVerif.C03.Model
 namespace BoaVerif.C08
@@ -20,33 +26,155 @@ def succPcs (b : Block) (i : Instr) : List Nat :=
 
 def isCounter (i : Instr) : Bool := i.op == "IncrementLoopIteration"
 
-/-- depth-first search for a cycle that avoids counter instructions.
-    `path` = pcs on the current DFS stack, `done` = pcs fully explored without finding a cycle.
-    Returns `none` if a cycle (or fuel exhaustion) was found, else the updated `done` set. -/
-def dfs (b : Block) : Nat → List Nat → List Nat → Nat → Option (List Nat)
-  | 0, _, _, _ => none
-  | fuel + 1, path, done, pc =>
-    if done.contains pc then some done
-    else if path.contains pc then none
-    else
-      match instrAt b pc with
-      | none => some (pc :: done)
-      | some i =>
-        if isCounter i then some done      -- paths through a counter are cut here (its successors are explored from their own roots)
-        else
-          let r := (succPcs b i).foldl (fun acc s => match acc with
-            | none => none
-            | some d => dfs b fuel (pc :: path) d s) (some done)
-          r.map (fun d => pc :: d)
+abbrev Rank := List (Nat × Nat)
 
-/-- no cycle avoids the loop counter: search from every instruction -/
-def loopGuarded (b : Block) : Bool :=
-  let fuel := b.instrs.length + 2
-  ((b.instrs.foldl (fun acc i => match acc with
+def rankOf (rk : Rank) (pc : Nat) : Nat := ((rk.find? (fun p => p.1 == pc)).map (·.2)).getD 0
+
+/-- THE STATIC CHECK: along every edge out of an instruction that is not the loop counter the rank drops -/
+def rankOk (b : Block) (rk : Rank) : Bool :=
+  b.instrs.all (fun i => isCounter i || (succPcs b i).all (fun s => rankOf rk s < rankOf rk i.pc))
+
+/-- the largest rank in use -/
+def maxRank (rk : Rank) : Nat := rk.foldl (fun m p => max m p.2) 0
+
+-- ---------------------------------------------------------------- the loop counter
+
+inductive Outcome | completed | limited
+  deriving Repr, DecidableEq
+
+/-- `IncrementLoopIteration::operation`: fails when the count it finds already exceeds the limit -/
+def counterStep (limit count : Nat) : Option Nat :=
+  if count > limit then none else some (count + 1)
+
+/-- `k` executions of the counter in one activation, starting from `count` -/
+def counterRun (limit : Nat) : Nat → Nat → Option Nat
+  | 0, count => some count
+  | k + 1, count =>
+    match counterStep limit count with
     | none => none
-    | some d => if isCounter i then
-        -- explore what follows the counter
-        (succPcs b i).foldl (fun a s => match a with | none => none | some d2 => dfs b fuel [] d2 s) (some d)
-      else dfs b fuel [] d i.pc) (some []))).isSome
+    | some c => counterRun limit k c
+
+/-- the two shapes loops are lowered to: the counter sits in front of the test that is evaluated before each
+    iteration (while, for-in, for-of, for-await), or it is passed after each body, on the way to the next test
+    (do-while: in front of its trailing test; for(;;): in front of the update expression, the first test is not counted) -/
+inductive LoopForm | preTest | postTest
+  deriving Repr, DecidableEq
+
+/-- a loop whose body wants to run `n` times, in a frame whose counter stands at `count`:
+    (bodies actually run, counter afterwards, outcome) -/
+def runLoop (limit : Nat) : LoopForm → Nat → Nat → Nat × Nat × Outcome
+  | .preTest, 0, count =>
+    -- the final, failing test still passes the counter
+    (match counterStep limit count with
+     | none => (0, count, .limited)
+     | some c => (0, c, .completed))
+  | .preTest, n + 1, count =>
+    (match counterStep limit count with
+     | none => (0, count, .limited)
+     | some c => let r := runLoop limit .preTest n c; (r.1 + 1, r.2.1, r.2.2))
+  | .postTest, 0, count => (0, count, .completed)       -- (a do-while body runs at least once: n ≥ 1 below)
+  | .postTest, n + 1, count =>
+    -- body, then counter + test
+    (match counterStep limit count with
+     | none => (1, count, .limited)
+     | some c =>
+       if n = 0 then (1, c, .completed)
+       else let r := runLoop limit .postTest n c; (r.1 + 1, r.2.1, r.2.2))
+
+-- ---------------------------------------------------------------- propagation of the error
+
+/-- what an activation does, as far as observable output and completions are concerned -/
+inductive Beh
+  | done                                           -- returns normally
+  | emit (tag : Nat) (k : Beh)                     -- an observable effect (print), then `k`
+  | throwHere                                      -- raises an ordinary (catchable) exception
+  | limitHere                                      -- a runtime limit is hit
+  | call (callee : Beh) (k : Beh)                  -- run `callee` in a new activation (any re-entry route), then `k`
+  | tryCatch (body handler : Beh) (k : Beh)        -- try { body } catch { handler }; k
+  | tryFinally (body fin : Beh) (k : Beh)          -- try { body } finally { fin }; k
+  deriving Repr
+
+inductive Res | normal | thrown | limited
+  deriving Repr, DecidableEq
+
+/-- the trace of effects and the completion. `handle_error`: a catchable exception runs the innermost handler
+    and finally blocks on its way; an uncatchable RuntimeLimitError skips all of them in every frame. -/
+def run : Beh → List Nat × Res
+  | .done => ([], .normal)
+  | .emit t k => let r := run k; (t :: r.1, r.2)
+  | .throwHere => ([], .thrown)
+  | .limitHere => ([], .limited)
+  | .call callee k =>
+    let r := run callee
+    if r.2 = .normal then let r2 := run k; (r.1 ++ r2.1, r2.2) else r
+  | .tryCatch body handler k =>
+    let r := run body
+    if r.2 = .normal then let r2 := run k; (r.1 ++ r2.1, r2.2)
+    else if r.2 = .thrown then
+      let rh := run handler
+      if rh.2 = .normal then let r2 := run k; (r.1 ++ rh.1 ++ r2.1, r2.2) else (r.1 ++ rh.1, rh.2)
+    else r
+  | .tryFinally body fin k =>
+    let r := run body
+    if r.2 = .limited then r
+    else
+      let rf := run fin
+      if rf.2 ≠ .normal then (r.1 ++ rf.1, rf.2)
+      else if r.2 = .normal then let r2 := run k; (r.1 ++ rf.1 ++ r2.1, r2.2)
+      else (r.1 ++ rf.1, r.2)
+
+/-- one level of surrounding code: what encloses the point where something runs -/
+inductive Layer
+  | callThen (k : Beh)                 -- we are the callee of a call followed by `k`
+  | inTry (handler k : Beh)            -- we are the body of try/catch
+  | inTryFinally (fin k : Beh)         -- we are the body of try/finally
+  | afterEmit (tag : Nat)              -- an effect happened just before us
+  deriving Repr
+
+def wrap (b : Beh) : List Layer → Beh
+  | [] => b
+  | .callThen k :: ls => wrap (.call b k) ls
+  | .inTry h k :: ls => wrap (.tryCatch b h k) ls
+  | .inTryFinally f k :: ls => wrap (.tryFinally b f k) ls
+  | .afterEmit t :: ls => wrap (.emit t b) ls
+
+-- ---------------------------------------------------------------- recursion depth
+
+/-- the routes by which running code enters another bytecode activation -/
+inductive Route
+  | direct          -- Call / New: `function_call` checks the limits and pushes a frame
+  | viaNative       -- a native function (`Array.prototype.forEach`, an accessor, `Reflect.apply`, …) re-enters through
+                    -- `JsObject::call`: the native's own call is checked, the callee's frame is pushed and the nested
+                    -- `Context::run` is counted in `host_call_depth`
+  deriving Repr, DecidableEq
+
+structure Depth where
+  frames : Nat      -- bytecode activations (the script's own frame included, the dummy frame excluded)
+  host : Nat        -- `host_call_depth`
+  deriving Repr, DecidableEq
+
+/-- `check_runtime_limits`, recursion part -/
+def allowed (limit : Nat) (d : Depth) : Bool := d.frames + d.host < limit
+
+/-- entering a callee by a route: `none` = refused with a RuntimeLimitError -/
+def enter (limit : Nat) (d : Depth) : Route → Option Depth
+  | .direct => if allowed limit d then some { d with frames := d.frames + 1 } else none
+  | .viaNative => if allowed limit d then some { frames := d.frames + 1, host := d.host + 1 } else none
+
+/-- leaving it again (return, throw or limit error: `JsObject::call` restores `host_call_depth` on every path) -/
+def leave (d : Depth) : Route → Depth
+  | .direct => { d with frames := d.frames - 1 }
+  | .viaNative => { frames := d.frames - 1, host := d.host - 1 }
+
+/-- nest calls along `routes`; `none` as soon as one is refused -/
+def nest (limit : Nat) (d : Depth) : List Route → Option Depth
+  | [] => some d
+  | r :: rs => match enter limit d r with
+    | none => none
+    | some d' => nest limit d' rs
+
+def cost : Route → Nat
+  | .direct => 1
+  | .viaNative => 2
 
 end BoaVerif.C08
